@@ -1,5 +1,6 @@
 import Driver.Common
 import OrdModel.Wallet.Builder
+import OrdModel.Wallet.BuilderCond
 import OrdModel.Generated.BuilderFixes
 /- Line handlers for the builder engine (property C20).  Stateful: `builder.fee` lines announce
 the dense table `fee(0..N)` of one fee rate (keyed by the rate's f64 bits); `builder.build`
@@ -108,6 +109,24 @@ def failed (xs : List (String × Bool)) : String :=
   let bad := xs.filter (!·.2)
   if bad.isEmpty then "true" else "false:" ++ ",".intercalate (bad.map (·.1))
 
+/-- Bool rendering of hypothesis `WF` of `c20_no_panic_partial` -/
+def wfBool (env : Env) (w : Wallet) (r : Request) : Bool :=
+  (env.fixes.subOverflow || (match w.amounts.lookup r.outgoing.1 with | some v => v != 0 | none => true))
+  && w.amounts.all (fun kv => decide (kv.2 < U64) && decide (env.dust r.change0 + kv.2 < U64))
+  && w.inscriptions.all (fun sp => decide (sp.2 + env.dust r.change1 < U64))
+  && decide (w.amounts.map (·.1)).Nodup && decide (walletTotal w < U64)
+  && !r.change0.opReturn && !r.change1.opReturn
+
+/-- Bool rendering of hypothesis `Funded`: the nine `Cond` fields on the state after `add_value` -/
+def fundedBool (env : Env) (w : Wallet) (r : Request) : Bool :=
+  match stages1234 env w r with
+  | .ok s4 =>
+    match s4.outputs.getLast?, s4.unused with
+    | some (sc, R), c :: _ =>
+      if sc = r.recipient then (condBits env r s4.inputs.length s4.outputs.dropLast R c).all id else true
+    | _, _ => true
+  | _ => true
+
 def handle (st : State) : List String → State × Option String
   | ["builder.fee", bits, table] =>
     match parseTable table with
@@ -122,6 +141,21 @@ def handle (st : State) : List String → State × Option String
       if maxVsize c < t.size then
         let env : Env := { fee := fun n => t[n]!, dust := c.dust, fixes := fixes }
         (st, some (renderOutcome " " (build env c.w c.r)))
+      else (st, some "bad-op fee-table-too-short")
+    | none, _ => (st, some "bad-op no-fee-table")
+    | _, none => (st, some "bad-op")
+  -- hypotheses of `c20_no_panic_partial` against the implementation's outcome:
+  -- a panic must violate `WF ∧ Funded`; a returned transaction must satisfy `Funded`
+  | ["builder.oracle.partial", bits, rcp, c0, c1, tgt, out, am, ins, lk, ru, outcome] =>
+    match st.tables.lookup bits, parseCase rcp c0 c1 tgt out am ins lk ru with
+    | some t, some c =>
+      if maxVsize c < t.size then
+        let env : Env := { fee := fun n => t[n]!, dust := c.dust, fixes := fixes }
+        if outcome.startsWith "panic" then
+          (st, some (if wfBool env c.w c.r && fundedBool env c.w c.r then "false:hypotheses-hold" else "true"))
+        else if outcome.startsWith "ok" then
+          (st, some (if fundedBool env c.w c.r then "true" else "false:ok-but-not-funded"))
+        else (st, some "true")
       else (st, some "bad-op fee-table-too-short")
     | none, _ => (st, some "bad-op no-fee-table")
     | _, none => (st, some "bad-op")
